@@ -447,8 +447,8 @@ func dumpBlocks(sh *ex.Shared, tag string) {
 			continue
 		}
 		type blk struct {
-			I    int `json:"i"`
-			Line int `json:"line"`
+			I    int  `json:"i"`
+			Line int  `json:"line"`
 			Cov  bool `json:"cov"`
 		}
 		var bl []blk
